@@ -443,6 +443,7 @@ class Ctx:
         self.sign = -1.0 if self.maximize else 1.0
         self.g = make_math(desc["obj"], desc["box"]["bounds"])
         self.log: list = []
+        self.log_base = 0  # index of the first call-log entry that belongs to this tree (> 0 when a configuration is reused)
         self.monitors = list(monitors)
         self.tree = None
         self.config = None
@@ -601,7 +602,7 @@ def build_stack(ctx: Ctx, tag: int, stack: list):
         fun = userdefs.CallableObjective(rec)
     else:
         fun = rec
-    fp = FunctionProblem(fun, ctx.bounds.copy(), ctx.maximize)
+    fp = FunctionProblem(fun, ctx.bounds.copy(), ctx.maximize, use_cache=bool(ctx.desc.get("use_cache")))
     objs = [fp]
     p = fp
     opt = ctx.sign * g_min(ctx.desc["obj"], ctx.desc["box"]["bounds"])
@@ -837,3 +838,64 @@ def _run_minimize(desc, ctx):
             kw[k] = desc[k]
     bounds = ctx.bounds.copy() if desc.get("bounds_as", "array") == "array" else [tuple(b) for b in desc["box"]["bounds"]]
     ctx.result = minimize(fun, bounds, **kw)
+
+
+def _guarded(ctx, fn):
+    try:
+        fn()
+    except WatchdogAbort as e:
+        ctx.aborted = ("watchdog", str(e))
+        ctx.emit("run_aborted", ctx.tree)
+    except HarnessError:
+        raise
+    except Exception as e:
+        ctx.aborted = ("exception", type(e).__name__, str(e)[:300], traceback.format_exc()[-1500:])
+
+
+def run_reuse_pair(desc: dict, make_monitors, second_seed_offset=7):
+    """Two trees, one after the other in the same process, the second built from the *same* configuration objects
+    (level configs with their problem stacks and stop conditions, global stop condition, sprout mechanism) - the
+    'repeated runs in a loop' usage.  State that leaks from the first tree into the second through a shared object
+    only becomes visible here.  Returns (ctx1, ctx2); both trees are monitored."""
+    ctx1 = Ctx(desc, make_monitors())
+    scramble_rng(desc.get("np_seed", 0))
+    holder = {}
+    with warnings.catch_warnings(record=True):
+        warnings.simplefilter("always")
+        with activate(ctx1):
+
+            def first():
+                holder["cfg"] = build_config(desc, ctx1)
+                tree = DemeTree(holder["cfg"])
+                ctx1.emit("tree_ready", tree)
+                tree.run()
+                ctx1.emit("run_end", tree)
+
+            _guarded(ctx1, first)
+        d2 = dict(desc)
+        opts = dict(desc.get("options", {}))
+        if opts.get("random_seed") is not None:
+            opts["random_seed"] = opts["random_seed"] + second_seed_offset
+        d2["options"] = opts
+        d2["np_seed"] = (desc.get("np_seed", 0) * 31 + 5) % (2**31 - 1)
+        ctx2 = Ctx(d2, make_monitors())
+        ctx2.log = ctx1.log
+        ctx2.log_base = len(ctx1.log)
+        ctx2.scoped_total = len(ctx1.log)
+        ctx2.stacks = ctx1.stacks
+        if "cfg" not in holder or ctx1.aborted:
+            ctx2.aborted = ("skipped", "first tree of the pair did not complete")
+            return ctx1, ctx2
+        cfg = holder["cfg"]
+        scramble_rng(d2["np_seed"])
+        with activate(ctx2):
+
+            def second():
+                cfg2 = TreeConfig(cfg.levels, cfg.gsc, cfg.sprout_mechanism, options=opts, config_class_to_deme_class=cfg.config_class_to_deme_class)
+                tree = DemeTree(cfg2)
+                ctx2.emit("tree_ready", tree)
+                tree.run()
+                ctx2.emit("run_end", tree)
+
+            _guarded(ctx2, second)
+    return ctx1, ctx2
